@@ -456,7 +456,7 @@ class Pipeline:
         when the entry point cannot be followed (the generator is then called directly, as the documented pipeline does)."""
         text = A.Sym("str", "SOURCE-TEXT")
         captured = []
-        saved = {k: getattr(it, k, None) for k in ("class_hooks", "builtin_hooks", "ext_hooks", "hash_domain")}
+        saved = {k: getattr(it, k, None) for k in ("class_hooks", "builtin_hooks", "ext_hooks", "hash_domain", "extra_globals")}
         lexer_names = {n for n, lc in self.lexers.items()}
         parser_name = self.grammar.cls.name
 
@@ -483,9 +483,22 @@ class Pipeline:
             if target is not None and name is not None:
                 target.items[A._key(name)] = A.Opaque("compiled-function", payload={"text": src})
             return None
+        gstore = {}
+        it.extra_globals = gstore
+
+        def _gk(k):
+            return k.text() if isinstance(k, A.Tmpl) and k.is_literal() else A._key(k)
+
+        def _globals_standin():
+            # the module's namespace as a mapping: what is put there (a lazily imported name) can be read back
+            g = A.Opaque("module-globals")
+            g.methods["setdefault"] = lambda i2, a2, k2, s2: gstore.setdefault(_gk(a2[0]), a2[1] if len(a2) > 1 else None)
+            g.methods["get"] = lambda i2, a2, k2, s2: gstore.get(_gk(a2[0]), a2[1] if len(a2) > 1 else None)
+            g.methods["update"] = lambda i2, a2, k2, s2: None
+            return g
         it.class_hooks = {**(saved["class_hooks"] or {}), **{n: mk_lexer for n in lexer_names}, parser_name: mk_parser}
         it.builtin_hooks = {**(saved["builtin_hooks"] or {}), "compile": compile_, "exec": exec_,
-                            "globals": lambda i2, a2, k2, s2: A.Opaque("module-globals")}
+                            "globals": lambda i2, a2, k2, s2: _globals_standin()}
         it.ext_hooks = {**(saved["ext_hooks"] or {}), "black.format_str": lambda i2, a2, k2, s2: a2[0],
                         "black.FileMode": lambda i2, a2, k2, s2: A.Opaque("black-mode"),
                         "black.Mode": lambda i2, a2, k2, s2: A.Opaque("black-mode")}
@@ -1014,6 +1027,11 @@ class Family:
         yield from self.sharing_variants()
         if "overflow" in self.options:
             yield from self.overflow_variants()
+        if "skeleton-names" in self.options:
+            # a condition field spelled like a name the generated module imports (both layouts and the evaluator must still agree)
+            for nm in ("partial", "deterministic_choice"):
+                yield self.prog(("if", [("cmp", "KW_EQ", ("id", self.b.ident(nm)), ("lit", self.b.integer(), False))], self.groups(1),
+                                 ("else", self.groups(1))), True, ("a",), f"condition field named {nm}")
 
     def overflow_variants(self):
         """A decimal literal with more digits than a float can hold (the lexer's float() gives inf), in every
